@@ -400,7 +400,7 @@ func runC16(c *Ctx) {
 			case k < 5:
 				kind := gen.Pick(r, []string{"smb", "ext"})
 				if kind == "ext" {
-					w.line(c, fmt.Sprintf("ladd ext %s e%d", name, r.Intn(2)))
+					w.line(c, fmt.Sprintf("ladd ext %s %s", name, gen.Pick(r, []string{"e0", "e1", "e0", "e1", "/s0", "/s1"}))) // endpoints with and without a leading slash
 				} else {
 					w.line(c, "ladd smb "+name)
 				}
@@ -469,7 +469,7 @@ func runC16(c *Ctx) {
 					w.line(c, fmt.Sprintf("sreg %s listener K%d", sc, r.Intn(4)))
 					c.Count("op.sreg.listener")
 				default:
-					w.line(c, fmt.Sprintf("sreg %s exc2 %s x%d", sc, name, r.Intn(3)))
+					w.line(c, fmt.Sprintf("sreg %s exc2 %s %s", sc, name, gen.Pick(r, []string{"x0", "x1", "x2", "/y0", "/y1"})))
 					c.Count("op.sreg.exc2")
 				}
 			case len(svc) > 1 && r.Chance(1, 3):
